@@ -262,6 +262,8 @@ pub fn insert_texts() -> Vec<(&'static str, Option<Rec>)> {
         ("a. 1 IN MX 10 mail.a.", Some(mx_rec(&nm("a"), 1, 10, &nm("mail.a")))),
         ("a. 1 IN SOA ns.a. admin.a. ( 1 2 3 4 5 )", Some(soa)),
         ("x. 0 IN TXT \"hi\"", Some(txt_rec(&nm("x"), 0, b"hi"))),
+        (". 5 IN NS a.", Some(name_rec(&vec![0u8], T_NS, 5, &nm("a")))),
+        ("x. 9 IN DS 1 2 3 abcd", Some(Rec { owner: nm("x"), rtype: T_DS, class: 1, ttl: 9, rdata: Rdata::Opaque(vec![0, 1, 2, 3, 0xab, 0xcd]) })),
         ("", None),
         ("x. 60 IN A", None),
         ("x. 60 XX A 1.2.3.4", None),
@@ -269,7 +271,7 @@ pub fn insert_texts() -> Vec<(&'static str, Option<Rec>)> {
         ("x. 1 IN DS 1 2 3 abc", None),
     ]
 }
-pub const N_TEXT_OK: usize = 6;
+pub const N_TEXT_OK: usize = 8;
 
 pub fn rename_triples() -> Vec<(Name, Name, bool)> {
     // (target, source, suffix)
